@@ -972,3 +972,56 @@ V('c12-superclass-memo', 'C12', 'C12.R12',
   [('pywbem_mock/_resolvermixin.py', "                superclass = self.get_class(namespace, new_class.superclass,\n                                            local_only=False,\n                                            include_qualifiers=True,\n                                            include_classorigin=True)",
     "                memo_key = (namespace, new_class.superclass.lower())\n                if memo_key not in self._sc_memo:\n                    self._sc_memo[memo_key] = self.get_class(\n                        namespace, new_class.superclass, local_only=False,\n                        include_qualifiers=True, include_classorigin=True)\n                superclass = self._sc_memo[memo_key]")],
   'memo-table')
+
+# ---- round i rules --------------------------------------------------------
+V('c18-destination-delete-unchecked', 'C18', 'C18.R12',
+  ('pywbem_mock/_subscriptionproviders.py',
+   "        self.validate_no_subscription(InstanceName)\n", "", 1, 1),
+  'unchecked-delete')
+V('c13-open-assoc-paths-wrong-pull-kind', 'C13', 'C13.R12',
+  ('pywbem_mock/_mainprovider.py', "                                   'PullInstancePaths',",
+   "                                   'PullInstancesWithPath',", 1, 2),
+  'pull-type')
+V('c14-open-enum-paths-drops-maxobjectcount', 'C14', 'C14.R16',
+  (MOCKCONN, "            ContinueOnError=params.get('ContinueOnError', None),\n            MaxObjectCount=params.get('MaxObjectCount', None))",
+   "            ContinueOnError=params.get('ContinueOnError', None))", 1, 1),
+  'filter-dropped')
+V('c04-propertylist-accepts-set', 'C04', 'C04.R14',
+  ('pywbem/_cim_operations.py', "    elif isinstance(property_list, (list, tuple)):",
+   "    elif isinstance(property_list, (list, tuple, set)):"),
+  'sequence-type')
+V('c08-qualcache-only-if-new', 'C08', 'C08.R13',
+  ('pywbem/_mof_compiler.py', "    p.parser.qualcache[ns][qualdecl.name] = qualdecl\n",
+   "    if qualdecl.name not in p.parser.qualcache[ns]:\n        p.parser.qualcache[ns][qualdecl.name] = qualdecl\n"),
+  'cache-not-replaced')
+V('c11-request-namespace-first', 'C11', 'C11.R5',
+  ('pywbem_mock/_instancewriteprovider.py', "                multi_ns.append(namespace)\n",
+   "                multi_ns.insert(0, namespace)\n"),
+  'validated-not-last')
+V('c01-property-reference-value-without-host', 'C01', 'C01.R16',
+  (OBJ, "                value_xml = _cim_xml.VALUE_REFERENCE(self.value.tocimxml())", 
+   "                value_xml = _cim_xml.VALUE_REFERENCE(\n                    self.value.tocimxml(ignore_host=True))", 1, 0),
+  'nested-reduced')
+V('c15-pull-validates-context-first', 'C15', 'C15.R8',
+  ('pywbem_mock/_mainprovider.py',
+   "        self._validate_pull_operations_enabled()\n        self.validate_namespace(namespace)\n        self._validate_open_params(FilterQueryLanguage, FilterQuery,\n                                   OperationTimeout)\n",
+   "        self.validate_namespace(namespace)\n        self._validate_pull_operations_enabled()\n        self._validate_open_params(FilterQueryLanguage, FilterQuery,\n                                   OperationTimeout)\n", 1, 2),
+  'switch-not-checked')
+V('c17-deliver-logs-first-arg', 'C17', 'C17.R11',
+  ('pywbem/_listener.py', "                    callback.__name__, exc.__class__.__name__, exc)",
+   "                    callback.__name__, exc.__class__.__name__,\n                    exc.args[0])"),
+  'IndexError')
+V('c02-query-result-class-before-check', 'C02', 'C02.R2a',
+  ('pywbem/_cim_operations.py',
+   "            insts, eos, enum_ctxt = self._get_rslt_params(\n                result, namespace, CIMInstance)\n\n            query_result_class = _GetQueryRsltClass(result) if \\\n                ReturnQueryResultClass else None\n",
+   "            query_result_class = _GetQueryRsltClass(result) if \\\n                ReturnQueryResultClass else None\n\n            insts, eos, enum_ctxt = self._get_rslt_params(\n                result, namespace, CIMInstance)\n"),
+  'none-result')
+V('c10-get-properties-try-around-loop', 'C10', 'C10.R17',
+  ('pywbem_mock/_baseprovider.py',
+   "            for pname in list(obj.properties.keys()):\n                if pname.lower() not in property_list:\n                    del obj.properties[pname]\n",
+   "            try:\n                for pname in list(obj.properties.keys()):\n                    if pname.lower() not in property_list:\n                        obj.properties.pop(pname)\n            except KeyError:\n                pass\n"),
+  'loop-cut-short')
+V('c07-kbstr-message-fstring', 'C07', 'C07.R11',
+  (OBJ, "                _format(\"WBEM URI has an invalid format for its keybindings: \"\n                        \"{0!A}\", keybindings_str))",
+   "                _format(\"WBEM URI has an invalid format for its keybindings: \"\n                        f\"{keybindings_str!a}\"))"),
+  '')
